@@ -9,6 +9,14 @@
 #ifndef VF_REPLAY
 
 #define VF_MASKW(n)	(VF_POW2W(n) - 1)
+/* -DVF_BN_LIGHT_CALLEES: value clauses (products, quotients, remainders) of bn_div, bn_mod_mult,
+ * bn_mod_mult_digit, bn_mod_exp* are compiled out.  Only for jobs that REPLACE these functions and do not
+ * need their values (bn_mod_sqrt: 45 call sites): weaker assumptions, still sound. */
+#ifdef VF_BN_LIGHT_CALLEES
+#define VF_HEAVY(c)	1
+#else
+#define VF_HEAVY(c)	(c)
+#endif
 
 /* "Term-aligned" product of an array (entry value) and a digit: the sum of the per-digit
  * double-width products, written with the operand order of the code (d * b[i]) so that every
@@ -141,12 +149,14 @@ __CPROVER_ensures((VF_BN_OLDVAL(d) != 0 && VF_DIV_NOFIT(bn, d)) ==> __CPROVER_re
 __CPROVER_ensures(__CPROVER_return_value == EOVERFLOW ==> (VF_DIV_NOFIT(bn, d) ||
     (remainder != NULL && remainder != bn && remainder->count < __CPROVER_old(d->digits))))
 /* value */
-__CPROVER_ensures((__CPROVER_return_value == 0 && remainder != bn) ==> (VF_BN_WF(*bn) &&
+__CPROVER_ensures((__CPROVER_return_value == 0 && remainder != bn) ==> VF_BN_WF(*bn))
+__CPROVER_ensures((__CPROVER_return_value == 0 && remainder != NULL) ==> VF_BN_WF(*remainder))
+__CPROVER_ensures(VF_HEAVY((__CPROVER_return_value == 0 && remainder != bn) ==> (
     VF_BN_VAL(*bn) * VF_BN_OLDVAL(d) <= VF_BN_OLDVAL(bn) &&
-    VF_BN_OLDVAL(bn) - VF_BN_VAL(*bn) * VF_BN_OLDVAL(d) < VF_BN_OLDVAL(d)))
-__CPROVER_ensures((__CPROVER_return_value == 0 && remainder != NULL && remainder != bn) ==> (VF_BN_WF(*remainder) &&
+    VF_BN_OLDVAL(bn) - VF_BN_VAL(*bn) * VF_BN_OLDVAL(d) < VF_BN_OLDVAL(d))))
+__CPROVER_ensures(VF_HEAVY((__CPROVER_return_value == 0 && remainder != NULL && remainder != bn) ==>
     VF_BN_VAL(*bn) * VF_BN_OLDVAL(d) + VF_BN_VAL(*remainder) == VF_BN_OLDVAL(bn)))
-__CPROVER_ensures((__CPROVER_return_value == 0 && remainder == bn) ==> (VF_BN_WF(*bn) &&
+__CPROVER_ensures(VF_HEAVY((__CPROVER_return_value == 0 && remainder == bn) ==>
     VF_BN_VAL(*bn) == VF_BN_OLDVAL(bn) % VF_BN_OLDVAL(d)))
 ;
 
